@@ -9,7 +9,7 @@ import (
 	"pgregory.net/rapid"
 )
 
-const c07Rule = "rapid-generated histories as in C01/C02/C04 (all primaries, small file sizes, GC cycles with budgets, close/reopen through snapshot, rescan and unusable snapshot); after every Flush, every completed GC cycle, every reopen and every Close an independent reader of the file formats (sharing no code with the repository) checks every clause of the invariant: " +
+const c07Rule = "rapid-generated histories as in C01/C02/C04 and, one in six, as in C09 (re-bucketing to another bit size, refused opens) (all primaries, small file sizes, GC cycles with budgets, close/reopen through snapshot, rescan and unusable snapshot); after every Flush, every completed GC cycle, every reopen and every Close an independent reader of the file formats (sharing no code with the repository) checks every clause of the invariant: " +
 	"live bucket table = own rescan of the index files (= bucket snapshot after Close); each bucket -> complete, non-deleted, correctly tagged record in an existing file at or after the header's first file; entries sorted, pairwise prefix-free, distinct locations; each entry -> complete non-deleted primary record of the recorded size whose digest has the bucket bits and the stored prefix; no live location in .free/.free.gc; primary first-file <= referenced files; " +
 	"concurrent part: " + stressRuleText + " - here only the fsck of the directory after Close is judged (collectors off / index GC on the CID primary / both collectors with keys only added); " +
 	"crash part: workloads of the C03 generator run under the crash recorder; drawn crash images (captured and torn) are restored, opened, and the same invariant is checked on the recovered store before and after a flush; non-trivial = some checked image had >=2 index files or >=2 primary files, >=1 deleted-marked record and >=1 bucket holding >=2 entries; distinct = distinct canonical JSON of the case"
@@ -61,6 +61,11 @@ func fsckOpts(agg *fsckAgg) seqOpts {
 }
 
 func genC07(t *rapid.T) SeqCase {
+	// One history in six comes from the C09 generator: states right after a
+	// re-bucketing (and after a refused open) belong to the quantifier too.
+	if weighted(t, "c09history", []int{5, 1}) == 1 {
+		return genC09(t, nil)
+	}
 	c := genC02(t)
 	return c
 }
